@@ -65,6 +65,15 @@ func (c *Ctx) replayVerdict(rf *ReplayFile) (bool, string) {
 			}
 		}
 		return false, "no race report in 3 free-running attempts (real scheduler: a race may need more attempts)"
+	case rf.Class == "init-order":
+		mode := strings.TrimPrefix(rf.Expect, "init-order ")
+		pool := NewPool(c.Build.SimWorker, c.Pool.args, []string{"VERIFSIM_INIT_ORDER=" + mode}, 1, c.Pool.timeout)
+		a := pool.RunFresh(rf.Spec)
+		b := c.Pool.RunFresh(rf.Spec2)
+		if outcomeSig(a.op("t")) != outcomeSig(b.op("t")) {
+			return true, fmt.Sprintf("under init order %s: %s vs %s", mode, outcomeSig(a.op("t")), outcomeSig(b.op("t")))
+		}
+		return false, "trace equals the reference under init order " + mode
 	case rf.Class == "rerun-differs":
 		a := c.Pool.RunFresh(rf.Spec)
 		b := c.Pool.RunFresh(rf.Spec)
